@@ -209,7 +209,15 @@ def _proc(tv):
     return _proc_trace('pre', tv, 0)
 
 
+def rule_components(ctx):
+    from . import x1
+    stats, nfun = x1.run_files(ctx, 'R10.6', ['integrator_janus.c', 'integrator_leapfrog.c', 'integrator_eos.c', 'integrator_sei.c'])
+    ctx.covered('R10.6', 'x/y/z statement triples of the reversible schemes (JANUS integer conversion, drift and kick; leapfrog; EOS shells; SEI kick) are one formula under an axis permutation',
+                stats['groups'], floor=40, samples=stats['samples'])
+
+
 def run(ctx):
+    rule_components(ctx)
     rule_janus_schemes(ctx)
     rule_janus_sequence(ctx)
     rule_janus_update_form(ctx)
